@@ -206,6 +206,10 @@ def run(ctx: Ctx):
     r_methods(ctx, model)
     r_cumulative(ctx, model)
     r_kelvin(ctx, model)
+    from ..sites import no_memoisation
+    ctx.rule("P-fresh: no caching decorator on any function of pygaps.characterisation.")
+    no_memoisation(ctx, load(ctx.root), "C16", "P-fresh", ('pygaps.characterisation.',),
+                   "cached adsorbate constants / radii are keyed by adsorbate name and temperature only and survive a change of the adsorbate's properties or backend")
 
 
 META = {
